@@ -131,6 +131,7 @@ func RootIDList(hs []types.Hash256) []int {
 type Sess struct {
 	R    *Rig
 	Base time.Time
+	base map[int]*rhp4.RevisionState
 	cids map[int]types.FileContractID
 	cidx map[types.FileContractID]int
 }
